@@ -435,7 +435,7 @@ class RefInterp(ObjInterp):
             v = None
             if init is not None and init.get('kind') == 'CXXDefaultInitExpr':
                 fd = tu.node(e[2])
-                ks = [x for x in tu.kids(fd)] if fd is not None else []
+                ks = init_exprs(tu, fd) if fd is not None else []
                 v = self.pval(ks[-1], st, fr) if ks else 'undef'
             elif init is not None:
                 v = self.pval(init, st, fr)
@@ -995,6 +995,16 @@ def post(role, f, env, d0, d, rv, handles):
             out.append(('leaked-count', '%d count(s) are held for pointee %s at exit but only %d handle(s) point at it: the count never '
                         'returns to zero and the object is never destroyed (a refDec is missing / an extra refInc); events %s'
                         % (held, o, fields, list(d.get('$ev', ())))))
+    # a handle that lives inside a pointee (scenario `$in:<handle>`) must not end up pointing at that very pointee: the object
+    # would hold a count on itself that nobody can ever release (head = std::move(head->next) implemented as a pointer swap)
+    for k, owner in d0.items():
+        if k.startswith('$in:') and not k.startswith('$in:v:'):
+            h = k[len('$in:'):]
+            if d.get(h) == owner and d0.get(h) != owner and not d.get('!' + owner):
+                out.append(('self-cycle', 'at exit the handle `%s`, which is stored inside pointee %s (e.g. head->next in head = std::move(head->next)), '
+                            'points at %s itself: the object now holds a count on itself, no release can ever bring its count to zero and it '
+                            'is never destroyed (the old pointee must be released by this operation, not parked in the source); events %s'
+                            % (h, owner, owner, list(d.get('$ev', ())))))
     tv = d.get('this')
     if role == 'default-ctor':
         if tv != 'null':
@@ -1006,7 +1016,10 @@ def post(role, f, env, d0, d, rv, handles):
             if tv not in ('null', src_val):
                 out.append(('wrong-pointee', 'after self-move the handle holds %s' % tv))
         elif tv != src_val:
-            out.append(('wrong-pointee', 'handle points at %s after the operation, the source pointed at %s' % (tv, src_val)))
+            out.append(('wrong-pointee', 'handle points at %s after the operation, the source pointed at %s%s' % (
+                tv, src_val, ' (the target kept its old pointee and the count on it: after assigning from %s it must %s)' % (
+                    'an empty handle' if src_val == 'null' else 'the source', 'be empty' if src_val == 'null' else 'refer to the source\'s pointee')
+                if role.endswith('assign') and tv == d0.get('this') else '')))
         if src is not None and src[0] == 'h' and not aliased:
             sv = d.get(src[1])
             if role.startswith('copy') and sv != src_val:
@@ -1028,6 +1041,7 @@ def post(role, f, env, d0, d, rv, handles):
 # ============================================================================================
 #  R-C08-2: the counter
 # ============================================================================================
+from rkstatic.x_atomics import init_exprs  # noqa: E402
 from rkstatic.x_atomics import (ATOMIC_INT, PLAIN_INT, WIDTH64, atomic_call, call_mo, cfg_paths, cfg_paths_unrolled, fence_mo,
                                 int_eval, loop_blocks)  # noqa: E402
 
@@ -1118,7 +1132,7 @@ def check_counter(ctx, tu):
                     init = tu.node(e[1])
                     if init is not None and init.get('kind') == 'CXXDefaultInitExpr':
                         fd = tu.node(e[2])
-                        init = tu.kids(fd)[-1] if fd is not None and tu.kids(fd) else None
+                        init = init_exprs(tu, fd)[-1] if fd is not None and init_exprs(tu, fd) else None
                     val = const_init(tu, init)
                     if val is None and init is not None and any((atomic_call(tu, y, counter_ids) or ('',))[0] == 'load'
                                                                 for y in tu.walk(init)):
@@ -1277,6 +1291,7 @@ def check_rmw_fn(ctx, tu, f, counter_ids, sign, file, followed=None):
         seq = []          # ordering-relevant events in path order: ('fence', mo) ('rmw',) ('load', mo) ('delete',)
         wrote = False
         parks = []        # calls / assignments that hand `this` to somebody else
+        manual = []       # destruction by hand: explicit destructor call / operator delete on `this`
         und0 = len(undec)
         env_vars = {}     # var decl id -> init expr
         feas = set(range(0, 4))
@@ -1318,9 +1333,23 @@ def check_rmw_fn(ctx, tu, f, counter_ids, sign, file, followed=None):
                                          'concurrent updates are lost' % a[1], tu.loc(x)))
                     else:
                         undec.append('unrecognised operation %s on the counter at %s' % (a[1], tu.loc(x)))
+                def is_self(e_):
+                    e_ = tu.strip(e_, casts=True)
+                    for _ in range(4):      # a local initialised once with `this` (const RefCountedObject *self = this)
+                        if e_ is not None and e_.get('kind') == 'DeclRefExpr' and e_.get('referencedDecl', {}).get('id') in env_vars:
+                            e_ = tu.strip(env_vars[e_['referencedDecl']['id']], casts=True)
+                    return e_ is not None and e_.get('kind') == 'CXXThisExpr'
+                if x.get('kind') == 'CXXMemberCallExpr' and '::~' in tu.sd(x).get('q', ''):
+                    s_, o_, a_ = tu.call_parts(x)
+                    if o_ is None or is_self(o_):
+                        manual.append(('explicit destructor call', x))
+                if x.get('kind') == 'CallExpr' and tu.sd(x).get('q', '').split('::')[-1] in ('operator delete', 'free', 'alignedFree') :
+                    s_, o_, a_ = tu.call_parts(x)
+                    if a_ and is_self(a_[0]):
+                        manual.append(('%s(self)' % tu.sd(x).get('q'), x))
                 if x.get('kind') == 'CXXDeleteExpr':
-                    op = tu.strip(tu.kids(x)[0], casts=True) if tu.kids(x) else None
-                    if op is not None and op.get('kind') == 'CXXThisExpr':
+                    op = tu.kids(x)[0] if tu.kids(x) else None
+                    if op is not None and is_self(op):
                         deletes.append(x)
                         seq.append(('delete',))
                     else:
@@ -1434,6 +1463,13 @@ def check_rmw_fn(ctx, tu, f, counter_ids, sign, file, followed=None):
             problems.append(('delete-in-inc', 'refInc destroys the object', tu.loc(deletes[0])))
         if len(deletes) > 1:
             problems.append(('double-delete', 'a path deletes the object twice', tu.loc(deletes[1])))
+        if manual and not deletes and sign < 0:
+            problems.append(('manual-destroy', 'the last release destroys the object by hand (%s) instead of `delete this`: the storage is '
+                             'released through the address of the RefCountedObject sub-object, which is not the address the object was '
+                             'allocated at when RefCountedObject is not the first base class, and a class-specific operator delete of the '
+                             'derived type is bypassed; only `delete this` through the virtual destructor finds the complete object'
+                             % ' + '.join(m[0] for m in manual), tu.loc(manual[0][1])))
+            continue
         for new in feas:
             per_new[new].append(bool(deletes))
             if not deletes and parks and len(undec) == und0:
